@@ -544,10 +544,10 @@ func runC14(rc *RunCtx) {
 // c14leaks: "idle clients never accumulate goroutines". When the system is idle
 // and every deadline has passed, a goroutine of the code under test that was
 // not there before the first datagram is a leak if it waits on a UDP socket (an
-// association's relay loop whose socket was never closed), or if they were
-// started at three or more different instants of a run with three or more
-// associations. Helpers that the handler starts lazily, together, and keeps for
-// its own lifetime do not accumulate.
+// association's relay loop whose socket was never closed), or if there is one
+// for every association of a run with four or more of them, started at three or
+// more different instants. Helpers that the handler starts lazily and keeps for
+// its own lifetime (together, or a small pool grown on demand) do not accumulate.
 func c14leaks(rc *RunCtx, base map[int]bool, nAssoc int) {
 	var extra []simrt.TaskInfo
 	for _, t := range simrt.Snapshot() {
@@ -567,7 +567,7 @@ func c14leaks(rc *RunCtx, base map[int]bool, nAssoc int) {
 	for _, t := range extra {
 		instants[t.Spawned] = true
 	}
-	if nAssoc >= 3 && len(instants) >= 3 {
+	if nAssoc >= 4 && len(extra) >= nAssoc && len(instants) >= 3 {
 		rc.Failf("association-task-leak", "%d associations have come and gone, the system is idle, and %d goroutines that were not there before the first datagram, started at %d different instants, are still alive:%s", nAssoc, len(extra), len(instants), describeTasks(extra))
 	}
 }
